@@ -410,6 +410,75 @@ func refOp(name string, a []Value) (res Value, fails bool, known bool) {
 			return nil, false, false
 		}
 		return a[0] != a[1], false, true
+	case "in":
+		if len(a) != 2 {
+			return nil, true, true
+		}
+		switch v := a[0].(type) {
+		case int64:
+			switch l := a[1].(type) {
+			case []int64:
+				found := false
+				for _, x := range l {
+					found = found || x == v
+				}
+				return found, false, true
+			case []string:
+				if len(l) == 0 {
+					return false, false, true
+				}
+			}
+			return nil, true, true
+		case string:
+			if l, ok := a[1].([]string); ok {
+				found := false
+				for _, x := range l {
+					found = found || x == v
+				}
+				return found, false, true
+			}
+			return nil, true, true
+		}
+		return nil, true, true
+	case "overlap":
+		if len(a) != 2 {
+			return nil, true, true
+		}
+		switch x := a[0].(type) {
+		case []int64:
+			switch y := a[1].(type) {
+			case []int64:
+				found := false
+				for _, p := range x {
+					for _, q := range y {
+						found = found || p == q
+					}
+				}
+				return found, false, true
+			case []string:
+				if len(y) == 0 {
+					return false, false, true
+				}
+			}
+			return nil, true, true
+		case []string:
+			switch y := a[1].(type) {
+			case []string:
+				found := false
+				for _, p := range x {
+					for _, q := range y {
+						found = found || p == q
+					}
+				}
+				return found, false, true
+			case []int64:
+				if len(x) == 0 {
+					return false, false, true
+				}
+			}
+			return nil, true, true
+		}
+		return nil, true, true
 	case "between":
 		if len(a) != 3 {
 			return nil, true, true
